@@ -185,7 +185,16 @@ impl<'a> Ev<'a> {
         // ---------------------------------------------------------------- Result
         const RES: &[&str] = &["map", "map_err", "and_then", "ok", "err", "is_ok", "is_err", "unwrap_or", "unwrap_or_else", "or_else", "unwrap_or_default"];
         if RES.contains(&name) {
-            if let Some(forks) = self.res_forks(st.clone(), rv) {
+            // what syn's parsers return is a Result, whatever else is unknown about it: decided as a `match` on it would be
+            let parse_forks = match rv {
+                Val::Opaque { what, .. } if matches!(what.as_str(), ".parse" | ".parse_args" | "call parse2" | "call syn::parse2") && !matches!(name, "unwrap_or" | "unwrap_or_else" | "unwrap_or_default") => {
+                    let nm = rv.short();
+                    let nm = if nm.len() > 60 { format!("{}…", &nm.chars().take(60).collect::<String>()) } else { nm };
+                    Some(self.decide(st.clone(), &F::A(format!("{nm} is Ok"))).into_iter().map(|(s, b)| (s, if b { Ok(Val::opaque("Ok.0", vec![rv.clone()])) } else { Err(Val::opaque("Err.0", vec![rv.clone()])) })).collect::<Vec<_>>())
+                }
+                _ => None,
+            };
+            if let Some(forks) = self.res_forks(st.clone(), rv).or(parse_forks) {
                 let mut r: Outs = Vec::new();
                 for (s, o) in forks {
                     match (name, o) {
